@@ -16,7 +16,7 @@ structure Item where
 
 structure Ctx where
   F : Features
-  traits : List TraitId
+  traits : TraitId → Bool      -- membership in the set of educed traits (the code only ever asks `contains`)
   d : DeriveInput
 
 def noSpace (s : String) : String := s.replace " " ""
@@ -69,7 +69,7 @@ def eqLikeHandler (c : Ctx) (m : TraitMeta) (me : TraitId) (mine : TraitId → B
   let fieldFlags : CmpFieldFlags := { ignore := true, method := true, rank := false }
   let companionItems (preds : List String) (head : List String) (vs : List (String × Shape × List String × List (List String))) : List Item :=
     match companion with
-    | some (t, name) => if c.traits.contains t then [{ trait := name, preds := preds, head := head, variants := vs }] else []
+    | some (t, name) => if c.traits t then [{ trait := name, preds := preds, head := head, variants := vs }] else []
     | none => []
   match d.kind with
   | .union =>
@@ -96,7 +96,7 @@ def eqLikeHandler (c : Ctx) (m : TraitMeta) (me : TraitId) (mine : TraitId → B
 
 def markerHandler (c : Ctx) (m : TraitMeta) (me partner : TraitId) (boundTrait superTrait : String) : Res (List Item) := do
   let d := c.d
-  let hasPartner := c.traits.contains partner
+  let hasPartner := c.traits partner
   let ta ← boundTypeFromMeta { flag := true, unsafe_ := false, bound := !hasPartner } m
   if hasPartner then pure []
   else do
@@ -112,7 +112,7 @@ def markerHandler (c : Ctx) (m : TraitMeta) (me partner : TraitId) (boundTrait s
 def cloneHandler (c : Ctx) (m : TraitMeta) : Res (List Item) := do
   let d := c.d
   let ta ← boundTypeFromMeta { flag := true, unsafe_ := false, bound := true } m
-  let hasCopy := c.traits.contains .copy
+  let hasCopy := c.traits .copy
   let enableMethod := match d.kind with | .struct => !hasCopy | .enum => true | .union => false
   let vs ← mapRes (fun v => do
       if d.kind == .enum then variantNoAttr c (· == .clone) v
@@ -359,9 +359,18 @@ def derefHandler (c : Ctx) (m : TraitMeta) (me : TraitId) : Res (List Item) := d
 
 /-! ### Into -/
 
+/-- Lexicographic order on code points — the order of Rust's `str` (UTF-8 preserves it). -/
+def lexLt : List Nat → List Nat → Bool
+  | [], [] => false
+  | [], _ :: _ => true
+  | _ :: _, [] => false
+  | a :: as, b :: bs => if a < b then true else if a = b then lexLt as bs else false
+
+def keyOf (s : String) : List Nat := s.toList.map Char.toNat
+
 def sortedInsert (x : String × Bound) : List (String × Bound) → List (String × Bound)
   | [] => [x]
-  | y :: ys => if x.1 < y.1 then x :: y :: ys else y :: sortedInsert x ys
+  | y :: ys => if lexLt (keyOf x.1) (keyOf y.1) then x :: y :: ys else y :: sortedInsert x ys
 
 def intoHandler (c : Ctx) (ms : List TraitMeta) : Res (List Item) := do
   let d := c.d
@@ -469,18 +478,18 @@ def handlerFor (c : Ctx) (t : TraitId) (ms : List TraitMeta) : Res (List Item) :
     | .clone => cloneHandler c m
     | .copy => markerHandler c m .copy .clone "::core::marker::Copy" "::core::clone::Clone"
     | .partialEq =>
-      eqLikeHandler c m .partialEq (fun t => t == .partialEq || (c.traits.contains .eq && t == .eq))
+      eqLikeHandler c m .partialEq (fun t => t == .partialEq || (c.traits .eq && t == .eq))
         "::core::cmp::PartialEq" (some (.eq, "Eq"))
     | .eq => markerHandler c m .eq .partialEq "::core::cmp::PartialEq" "::core::cmp::PartialEq"
     | .partialOrd =>
-      if c.traits.contains .ord then do
+      if c.traits .ord then do
         let _ ← boundTypeFromMeta { flag := true, unsafe_ := false, bound := false } m
         pure []
       else ordLikeHandler c m .partialOrd (· == .partialOrd) "::core::cmp::PartialOrd" ["::core::cmp::PartialEq"] false
     | .ord =>
-      ordLikeHandler c m .ord (fun t => t == .ord || (c.traits.contains .partialOrd && t == .partialOrd)) "::core::cmp::Ord"
-        (["::core::cmp::Eq"] ++ (if c.traits.contains .partialOrd then [] else ["::core::cmp::PartialOrd"]))
-        (c.traits.contains .partialOrd)
+      ordLikeHandler c m .ord (fun t => t == .ord || (c.traits .partialOrd && t == .partialOrd)) "::core::cmp::Ord"
+        (["::core::cmp::Eq"] ++ (if c.traits .partialOrd then [] else ["::core::cmp::PartialOrd"]))
+        (c.traits .partialOrd)
     | .hash => eqLikeHandler c m .hash (· == .hash) "::core::hash::Hash" none
     | .default => defaultHandler c m
     | .deref => derefHandler c m .deref
@@ -509,7 +518,7 @@ def expand (F : Features) (d : DeriveInput) : Res (List Item) :=
   | .diag e => .diag e
   | .panic s => .panic s
   | .ok map =>
-    let c : Ctx := { F := F, traits := map.map Prod.fst, d := d }
+    let c : Ctx := { F := F, traits := fun t => map.any fun p => p.1 == t, d := d }
     match dispatch c map (TraitId.all.filter F.contains) with
     | .ok [] => .diag .notSetUp
     | r => r
